@@ -116,7 +116,10 @@ def build_graph(rng, depth=0, outer_pool=None):
                 pool.append((P.getitem(pr, 1), "arr"))
             feats.add("tuple-result")
         elif r < 0.72:
-            # in-place on a fresh copy (readers of the copy are ancestors of the update by construction)
+            # in-place on a fresh copy (readers of the copy are ancestors of the update by construction); inside a
+            # nested graph the copy must be created per invocation, i.e. depend on the nested graph's own input
+            if depth > 0 and not tracer.depends_on(a, inputs[0]):
+                continue
             cp = P.call(C("copy"), [a])
             num = pick("num")
             val = num if num is not None else 7.0
